@@ -53,6 +53,9 @@ def run(res, tier):
         fam = ['edmd', 'dmdc', 'zpk'][cid % 3]
         kw = dict(alpha=float(rng.choice([0.5, 1.0, 5.0])), ratio=float(rng.choice([1.0, 0.5])),
                   max_iter=int(rng.choice([2, 3, 4])), square_norm=bool(rng.random() < 0.3), solver_params=lmi.SOLVER)
+        if cid % 2 == 1:
+            # loose tolerance and room to iterate: the loop ends on its tolerance test, early in the descent
+            kw.update(iter_atol=float(rng.choice([1e-2, 1e-1])), max_iter=int(rng.choice([6, 12])))
         try:
             if fam == 'zpk':
                 units = str(rng.choice(['rad/s', 'hz', 'normalized']))
@@ -97,7 +100,8 @@ def run(res, tier):
               'and LmiHinfZpkMeta (zeros/poles/gain in rad/s, Hz and normalised units, bilinear and zoh) on data with 1..2 '
               'inputs; per fit: poles strictly inside the unit disc, max over a refined 2500-point frequency grid of '
               '|W| sigma_max(G) <= gamma_ (the filter is rebuilt independently from the documented meaning of the parameters), '
-              'objective log non-increasing.'),
+              'objective log non-increasing. Half of the fits use a loose iter_atol (1e-2, 1e-1) with max_iter 6 / 12 so that the '
+              'loop leaves on its tolerance test.'),
         samples=samples, input_distribution=dist)
     res.assumptions += ['a frequency grid gives a lower bound of the H-infinity norm: it can expose a violated bound, the upper bound '
                         'comes from the bounded-real certificate (time-domain part proved in AlgR/Dissip.v; l2 gain = H-infinity '
